@@ -519,7 +519,11 @@ func (e *Engine) VirtualizationUpdateResource(ctx context.Context, ID string, en
 	cpuMap := resourceOpts.CPU
 	numaNode := resourceOpts.NUMANode
 	// unlimited cpu
-	if quota == 0 || len(cpuMap) == 0 {
+	if quota == 0 {
+		quota = -1
+	}
+	// no cpu map given: docker can't reset CpusetCpus to empty, so spread over all the cores
+	if len(cpuMap) == 0 {
 		info, err := e.Info(ctx) // TODO can fixed in docker engine, support empty Cpusetcpus, or use cache to speed up
 		if err != nil {
 			return err
@@ -528,10 +532,7 @@ func (e *Engine) VirtualizationUpdateResource(ctx context.Context, ID string, en
 		for i := 0; i < info.NCPU; i++ {
 			cpuMap[strconv.Itoa(i)] = int64(e.config.Scheduler.ShareBase)
 		}
-		if quota == 0 {
-			quota = -1
-			numaNode = ""
-		}
+		numaNode = ""
 	}
 
 	newResource := makeResourceSetting(quota, memory, cpuMap, numaNode, resourceOpts.IOPSOptions, resourceOpts.Remap)
